@@ -1,8 +1,9 @@
 import MoneroModel.Proofs.ScanTop
 import MoneroModel.Proofs.ScanMore
+import MoneroModel.Proofs.ExtraComplete
 import MoneroModel.Proofs.GroupInstance
 import MoneroModel.Proofs.EdwardsLawful
-open Monero Monero.Scan
+open Monero Monero.Scan Monero.Extra
 /-! # C07 — output scanning reports exactly the outputs addressed to the wallet
 
 Model: `MoneroModel/Model/Scan.lean` (`checkOutputsTx` / `checkOutputsPrefix` / `checkOutputsWith`, the iterator pipeline
@@ -430,6 +431,46 @@ theorem C07_check_complete (L : Lawful ops) (v : Nat) (S : P) (a b c d : Nat) (i
     rw [hkey] at this
     exact (L.enc_inj this).symm
 
+/-! ### From the sender's extra bytes (C16 composed) -/
+
+omit [AddCommGroup P] in
+/-- **The keys the scan uses are the sender's first keys.** If the extra field of the prefix is the serialization of a
+well-formed sub-field sequence `fs` (what a sender writes: `ExtraField` → `RawExtraField`; well-formedness as in C16, keys
+valid for `PublicKey::from_slice`), then the transaction key used by the scan is the key of the FIRST `TxPublicKey` sub-field
+of `fs` and the additional keys are those of the FIRST `AdditionalPublickKey` sub-field (none if there is none). -/
+theorem C07_keys_of_sender_extra (p : Prefix) (fs : List SubField) (hw : WFSeq (validKey ops) fs)
+    (hp : p.extra = (fs.map encSub).flatten) :
+    mainKey ops p = txPubkey fs ∧ addKeys ops p = (txAdditionalPubkeys fs).getD [] := by
+  have h := tryParse_flat (validKey ops) fs hw
+  unfold flat at h
+  unfold mainKey addKeys rawTryParse
+  rw [hp, h]
+  exact ⟨rfl, rfl⟩
+
+/-- **End to end from the sender's extra.** The sender writes the extra field `TxPublicKey(K) :: rest` with
+`K = txKey r dest + T` (the published transaction key for the wallet's address at the in-range index `(i,j)`) and the output at
+position `n` as in `C07_sender_recognised`; then in an `Ok` scan position `n` is reported with key `K` and an index with the spend
+key of `(i,j)`. No hypothesis about the PARSED extra is left. -/
+theorem C07_sender_tx_reported (L : Lawful ops) (decP : Bytes → Option P) (p : Prefix) (v : Nat) (S : P) (a b c d : Nat)
+    (base : Option Base) (ws : List Owned) (h : checkOutputsPrefix ops decP p v S a b c d base = .ok ws)
+    (n : Nat) (hn : n < p.outs.length) (i j r : Nat) (T : P) (hT : 8 • T = 0) (hr : InRange a b c d (i, j))
+    (rest : List SubField)
+    (hw : WFSeq (validKey ops) (.txPub (ops.enc (Spec.Sender.txKey (specPrims ops) r (Spec.Sender.destAt (specPrims ops) v S i j) + T)) :: rest))
+    (hp : p.extra = ((SubField.txPub (ops.enc (Spec.Sender.txKey (specPrims ops) r (Spec.Sender.destAt (specPrims ops) v S i j) + T)) :: rest).map encSub).flatten)
+    (hout : p.outs[n].target = .key (ops.enc (Spec.Sender.sendKey (specPrims ops) r (Spec.Sender.destAt (specPrims ops) v S i j) n)) ∨
+      p.outs[n].target = .tagged (ops.enc (Spec.Sender.sendKey (specPrims ops) r (Spec.Sender.destAt (specPrims ops) v S i j) n))
+        (Spec.Sender.sendTag (specPrims ops) r (Spec.Sender.destAt (specPrims ops) v S i j) n)) :
+    ∃ w ∈ ws, w.index = n ∧
+      w.txKey = ops.enc (Spec.Sender.txKey (specPrims ops) r (Spec.Sender.destAt (specPrims ops) v S i j) + T) ∧
+      InRange a b c d w.sub ∧ subSpendPub ops v S w.sub.1 w.sub.2 = subSpendPub ops v S i j := by
+  have hk := (C07_keys_of_sender_extra p _ hw hp).1
+  exact C07_sender_reported L decP p v S a b c d base ws h _ hk n hn i j r T hT hr hout (Or.inl rfl)
+
+/-- the well-formedness hypothesis is satisfiable: the sender's key alone (32 bytes, accepted) -/
+example (L : Lawful ops) (X : P) (h32 : (ops.enc X).length = 32) : WFSeq (validKey ops) [.txPub (ops.enc X)] := by
+  show (ops.enc X).length = 32 ∧ validKey ops (ops.enc X) = true
+  exact ⟨h32, by unfold validKey; rw [L.dec_enc]; rfl⟩
+
 /-- the hypotheses are satisfiable: a lawful instance exists -/
 example : ∃ (Q : Type) (_ : AddCommGroup Q) (o : CryptoOps Q), Lawful o := ⟨_, _, zmodOps, zmodOps_lawful⟩
 
@@ -454,6 +495,7 @@ theorem C07_sender_reported_ed25519 : type_of% (@C07_sender_reported EdPoint _ e
 theorem C07_wrong_tag_not_reported_ed25519 : type_of% (@C07_wrong_tag_not_reported EdPoint _ edOps edOps_lawful) := C07_wrong_tag_not_reported edOps_lawful
 theorem C07_out_of_range_not_reported_ed25519 : type_of% (@C07_out_of_range_not_reported EdPoint _ edOps edOps_lawful) := C07_out_of_range_not_reported edOps_lawful
 theorem C07_sender_reported_exact_ed25519 : type_of% (@C07_sender_reported_exact EdPoint _ edOps edOps_lawful) := C07_sender_reported_exact edOps_lawful
+theorem C07_sender_tx_reported_ed25519 : type_of% (@C07_sender_tx_reported EdPoint _ edOps edOps_lawful) := C07_sender_tx_reported edOps_lawful
 theorem C07_check_sound_ed25519 : type_of% (@C07_check_sound EdPoint _ edOps edOps_lawful) := C07_check_sound edOps_lawful
 end Ed25519
 end C07
